@@ -198,7 +198,8 @@ class Optimizer(Identifiable, Runnable):
         return state
 
     def load_state_dict(self, state_dict: dict[str, Any]) -> None:
-        self._epoch = state_dict["iteration"]
+        # the checkpoint is written at the end of an iteration: resume with the next one
+        self._epoch = state_dict["iteration"] + 1
         # JSON turns the integer keys of the per-parameter state into strings
         optimizer_state = dict(state_dict["optimizer"])
         optimizer_state["state"] = {
